@@ -571,3 +571,13 @@ def corr_streams(C, name, specs, imports):
         C.stream('corr.' + s['label'], len(s['cases']), len(distinct),
                  sample=dict(input=mid[0], impl=str(mid[1])) if mid else None)
         C.cov['traces_validated_against_impl'] += len(s['cases'])
+
+
+def replay_broken(r, pid):
+    """Replay of a file that names broken obligations instead of a failing input: print them and re-run the quick check,
+    whose verdict (against the current tree) is the replay's verdict."""
+    print(f"replay: this file holds no failing input; it names the proof obligation(s) / correspondence stream(s) that no longer check:")
+    for b in r.get('broken', [])[:10]:
+        print("   ", {k: (str(v)[:200]) for k, v in b.items()})
+    import importlib
+    return importlib.import_module('checks.' + pid.lower()).run('quick')
